@@ -30,6 +30,13 @@ ASSUMPTIONS = [
     'the host declares two enumeration types sharing an enumerator name (Color::Red, Mode::Red), two constant groups sharing a constant '
     'name with different types (K::TEN integer, L::TEN string) and a constant named like an enumerator (L::Red); the family "names" reads '
     'every ordered pair of these qualified names in one body; user data types defined over an enumeration are not part of the host',
+    'the host declares three user data types -- Stamp over integer, Label over string, Tick over Stamp (two levels) -- and with them '
+    'the attributes A.When (Stamp), A.Tag (Label), A.Beat (Tick), B.When (Tick), the last two parameters of the function, bridge and '
+    'operation homes (main(x, y, w: Stamp, l: Label), EE::relay(p, q, w: Stamp, l: Label), A.run(q, r, w: Stamp, k: Tick); their first '
+    'parameters are those of f, b and op, which the programs call) and the return types of ::stamp, EE::title, A::tick (class based) and '
+    'A.mark (instance based).  For well-formedness a user data type stands for the core type underneath it: such a value may be an '
+    'operand next to core-typed operands, a parameter value, and be assigned to a variable or attribute declared with the core type or '
+    'with another user data type over the same core type',
     'programs are printed on one line with single blanks, except the programs with elif clauses, which are also printed with a '
     'line per statement and clause in equal, falling and rising columns, and in falling columns with every line ending in a // comment (layouts lines, stairs, climb, stairs-remarks); layout in general is C06\'s '
     'and C07\'s subject',
@@ -54,6 +61,10 @@ REQUIRED_FEATURES = [
     'if:elif-0:no-else', 'if:elif-1:else', 'if:elif-2:else', 'if:elif-2:no-else',
     'same-name:enumerator-then-enumerator', 'same-name:enumerator-then-constant', 'same-name:constant-then-enumerator',
     'same-name:constant-then-constant',
+    'udt:attribute-read', 'udt:param-read', 'udt:invocation:function', 'udt:invocation:bridge', 'udt:invocation:class-operation',
+    'udt:invocation:instance-operation', 'udt:two-level', 'udt:declares-transient', 'udt:transient-read', 'udt:attribute-write',
+    'udt:assigned-across-types', 'udt:argument:same-type', 'udt:argument:of-core-type', 'udt:argument:of-other-user-type',
+    'udt:operand-next-to-core-type', 'udt:operand-next-to-user-type',
 ] + ['binary:' + op for op in ('+', '-', '*', '/', '%', '|', '&', '^', '<', '<=', '==', '!=', '>=', '>', 'and', 'or')] \
   + ['unary:' + op for op in ('not', 'empty', 'not_empty', 'cardinality', '+', '-')]
 
